@@ -237,6 +237,37 @@ func (g *FnGen) evalIdent(env *Env, name string) SVal {
 			return env.results[i]
 		}
 	}
+	// rangeindexK: the index of the K-th loop (inside a nested loop, plain "rangeindex" is the innermost one)
+	if strings.HasPrefix(name, "rangeindex") && len(name) > 10 && env.depth == 0 {
+		k := 0
+		fmt.Sscanf(name[10:], "%d", &k)
+		for _, li := range g.loops {
+			if li.ord != k {
+				continue
+			}
+			for _, in := range li.header.Instrs {
+				phi, ok := in.(*ssa.Phi)
+				if !ok {
+					break
+				}
+				if phi.Comment == "rangeindex" {
+					if t, ok := env.phiOverride[phi]; ok {
+						return SVal{t, phi.Type()}
+					}
+					if t, ok := g.vals[phi]; ok {
+						return SVal{t, phi.Type()}
+					}
+				}
+			}
+		}
+		env.fail("no range index for loop %s", name[10:])
+	}
+	// entry_<p>: the parameter p itself, also where the code reassigns p (loop invariants see the reassigned value under p)
+	if strings.HasPrefix(name, "entry_") && env.depth == 0 {
+		if v, ok := g.params[name[6:]]; ok {
+			return v
+		}
+	}
 	if et, ok := env.captured[name]; ok && env.depth == 0 {
 		if v, ok := env.vars[name]; ok {
 			if _, isStruct := types.Unalias(et).Underlying().(*types.Struct); isStruct {
